@@ -24,12 +24,18 @@
        themselves nested to any depth (their ticks are related through the dictionary-adequacy
        theorem of C03 and the footprint theorems of C10); systems of devices can so be inlined one
        after the other ([C09_inline_two_siblings]).
-   PARTIAL: (3) is about runs without interrupts, at speed 1 where real time is involved; nestings
-   deeper than one level, several system simulations, wires straight from an external to an exposed
-   port and interrupts are decided per pair of runs of the real schedulers (codes 71/72) and per run
-   by the oracles shared with C03/C06/C12 -- [check_flat_pair] also checks that the harness's flat
-   configuration IS the Coq flattening (code 73) and, inside the scope of (3), that [inline] is
-   that flattening (code 74).  Property theorems only. *)
+   (5) [C09_flatten_any_depth] (+ _table, _master, _script, [C09_any_depth_is_every_flat_schedule]): ANY DEPTH and
+       ANY MIX of external inputs, exposed outputs, pass-through ports (wires straight from an external to an exposed
+       port) or none: the inlined system may hold system simulations itself, and inlining the top-level systems one
+       after the other ([inline_all], scope decided by [scope_all]) flattens the whole nesting; nested run and flat
+       run perform the same device updates, in order, at the same times, with equal inputs.
+   (6) [C09_inner_interrupts_refuted]: with interrupts of devices INSIDE system simulations the statement is false,
+       in the model and in the code (one specific way, recorded as a known finding).
+   PARTIAL: the theorems are about runs with interrupts of top-level components only (between ticks), at speed 1
+   where real time is involved; other speeds and interrupts of inner devices are decided per pair of runs of the
+   real schedulers (codes 71, 76) and per run by the oracles shared with C03/C06/C12 -- [check_flat_pair] also
+   checks that the harness's flat configuration IS the Coq flattening (code 73) and that [inline] / [inline_all]
+   compute that flattening (code 74).  Property theorems only. *)
 From TV Require Import Base Model.Wiring Model.Ticker Model.Component Model.Sim Model.SimTime Model.Inline Model.NSim Model.Interrupts
   Oracle.SimCheck Oracle.SimOracle
   Proofs.SimP Proofs.FlattenP Proofs.EqvP Proofs.ParDevP Proofs.InlineP Proofs.InlineLoopP Proofs.InlineScopeP Proofs.InlineAllP Proofs.InterruptsP Proofs.SimTimeP Proofs.InlineLatestP Proofs.ScheduleP Proofs.SimTraceP.
@@ -333,6 +339,23 @@ Example C09_any_depth_example :
   (let '(_, obN, _) := sim_run sib_cfg (table_dev sib_tab) 20 8 0 100000 in
    map fst obN = map fst (snd (fst (sim_run (inline_all 5 sib_cfg) (table_dev sib_tab) 20 8 0 100000)))).
 Proof. vm_compute. repeat split; reflexivity. Qed.
+
+(* pass-through ports: a wire straight from an external to an exposed port of the system 4 (external 1 -> expose 2)
+   becomes the direct wire 3.1 -> 8.2 of the inlined configuration; the shape is in scope as long as what feeds the
+   port comes before the system and what it feeds comes after it in the order of the top level *)
+Definition pt_cfg : config :=
+  [(1%positive, {| l_order := [(3%positive, KDev); (4%positive, KSys 2%positive); (8%positive, KDev)];
+                   l_conns := [(3, 1, 4, 1); (4, 1, 8, 1); (4, 2, 8, 2)]%positive |});
+   (2%positive, {| l_order := [(5%positive, KDev)]; l_conns := [(1, 1, 5, 1); (5, 1, 2, 1); (1, 1, 2, 2)]%positive |})].
+Example C09_pass_through_example :
+  shape_at pt_cfg 8 4%positive = Some (2%positive, [3%positive], [5%positive], [8%positive]) /\
+  scope_all 3 8 [] pt_cfg = true /\
+  In (3, 1, 8, 2)%positive (l_conns (level_of (inline_all 3 pt_cfg) 1%positive)) /\
+  conns_set_eqb (flat_conns pt_cfg) (l_conns (level_of (inline_all 3 pt_cfg) 1%positive)) = true /\
+  (let tab : dev_table := [(3%positive, (11, 300, 1)); (5%positive, (12, 700, 0)); (8%positive, (14, 400, 0))] in
+   let '(_, obN, _) := sim_run pt_cfg (table_dev tab) 12 8 0 100000 in
+   existsb (fun o : obs => Pos.eqb (fst (fst o)) 8 && nonempty (filter (fun kv : port * Z => Pos.eqb (fst kv) 2) (snd o))) obN = true).
+Proof. vm_compute. repeat split; try reflexivity; intuition. Qed.
 
 (* (6) REFUTED for interrupts of devices INSIDE system simulations, in the model and in the code (DESIGN.md 7.3).
    An interrupt of an inner device is queued by name in the nested scheduler and wakes the OUTERMOST system
